@@ -465,6 +465,138 @@ func runC09B7(c *Ctx, tunnels []*c09tunnel) {
 
 // ---- W1: the connection wrapper ------------------------------------------------------------------------------------------
 
+// c09readsThroughReader: recv is a load of another field F of the wrapper struct nt, and whatever is stored in F
+// anywhere in the repository is a reader placed over the connection stored in the wrapped-connection field `inner`
+// of the same object (`&T{Conn: c, r: bufio.NewReader(c)}`): the "buffered connection" idiom. Reading through F
+// delivers the wrapped connection's stream from its first byte (trusted: bufio.Reader).
+func c09readsThroughReader(recv ssa.Value, nt types.Type, inner string) bool {
+	st, _ := nt.Underlying().(*types.Struct)
+	if st == nil {
+		return false
+	}
+	fIdx := -1
+	for k := 0; k < st.NumFields(); k++ {
+		if name := st.Field(k).Name(); name != inner {
+			if _, ok := fieldOf(recv, typeStr(nt), name); ok {
+				fIdx = k
+			}
+		}
+	}
+	return fIdx >= 0 && c09readerFieldOver(nt, fIdx, inner)
+}
+
+// c09readerFieldOver: every value stored in field fIdx of the wrapper struct nt is a reader over the connection stored
+// in field `inner` of the same object.
+func c09readerFieldOver(nt types.Type, fIdx int, inner string) bool {
+	st, _ := nt.Underlying().(*types.Struct)
+	innerIdx := -1
+	for k := 0; st != nil && k < st.NumFields(); k++ {
+		if st.Field(k).Name() == inner {
+			innerIdx = k
+		}
+	}
+	if innerIdx < 0 || fIdx < 0 || fIdx >= st.NumFields() || fIdx == innerIdx {
+		return false
+	}
+	stores := c09storesOf(st.Field(fIdx))
+	if len(stores) == 0 {
+		return false
+	}
+	for _, sto := range stores {
+		fa := sto.Addr.(*ssa.FieldAddr)
+		rw := c09newWalker()
+		rw.through = true
+		rw.walk(sto.Val)
+		// the connection(s) stored in `inner` of the same object
+		cw := c09newWalker()
+		cw.through = true
+		cw.field(fa.X, fa.X.Type(), innerIdx, fa.X)
+		over := false
+		for k, v := range rw.roots {
+			if _, ok := cw.roots[k]; ok && k.s == "" && c09connLike(v.Type()) {
+				over = true
+			}
+		}
+		if !over {
+			return false
+		}
+	}
+	return true
+}
+
+// c09forwards: method f (Read/Write/Close named mn) of wrapper type tn hands its arguments, as received, to the same
+// method of the wrapped connection (field `inner`; for Read also a reader placed over it) and returns what that call
+// returned, unchanged - on every return, whichever of several forwarding calls (one per branch) produced it; the
+// forwarding call may sit in a method of the same type that is called with the arguments as received. No other call
+// of that method on the wrapped connection is made (a Write that also writes something of its own invents bytes).
+func c09forwards(f *ssa.Function, mn string, nt types.Type, tn, inner string, depth int) bool {
+	if f == nil || len(f.Blocks) == 0 || depth > 2 {
+		return false
+	}
+	sameArgs := func(args []ssa.Value) bool {
+		if len(args) != len(f.Params)-1 {
+			return false
+		}
+		for k := range args {
+			if args[k] != ssa.Value(f.Params[k+1]) {
+				return false
+			}
+		}
+		return true
+	}
+	good := map[ssa.Value]bool{}
+	bad := false
+	eachInstr(f, func(i ssa.Instruction) {
+		call, isC := i.(*ssa.Call)
+		if !isC {
+			return
+		}
+		if recv, args, isM := c09ioCall(&call.Call, mn); isM {
+			_, isInner := fieldOf(recv, "tcp."+tn, inner)
+			through := !isInner && mn == "Read" && c09readsThroughReader(recv, nt, inner)
+			if isInner || through {
+				if sameArgs(args) {
+					good[call] = true
+				} else {
+					bad = true
+				}
+				return
+			}
+		}
+		// a method of the same wrapper type, given the receiver and the arguments as received, that forwards
+		if sc := call.Call.StaticCallee(); sc != nil && isRepoFn(sc) && sc != f && sc.Signature.Recv() != nil && len(call.Call.Args) == len(f.Params) &&
+			namedIs(sc.Signature.Recv().Type(), "tcp."+tn) && sameArgs(call.Call.Args[1:]) && types.Identical(sc.Signature.Results(), f.Signature.Results()) {
+			if c09forwards(sc, mn, nt, tn, inner, depth+1) {
+				good[call] = true
+			}
+		}
+	})
+	if bad || len(good) == 0 {
+		return false
+	}
+	ret := true
+	eachInstr(f, func(j ssa.Instruction) {
+		r, isR := j.(*ssa.Return)
+		if !isR {
+			return
+		}
+		var from ssa.Value
+		for k, res := range r.Results {
+			var src ssa.Value
+			if len(r.Results) == 1 {
+				src = res
+			} else if e, isE := res.(*ssa.Extract); isE && e.Index == k {
+				src = e.Tuple
+			}
+			if src == nil || !good[src] || (from != nil && src != from) {
+				ret = false
+			}
+			from = src
+		}
+	})
+	return ret
+}
+
 // runC09W1: every struct of proxy/tcp that wraps a net.Conn and is itself a connection (Read, Write, Close) forwards
 // those three unchanged. The wrapper is found by that role, not by its name.
 func runC09W1(c *Ctx) {
@@ -488,8 +620,9 @@ func runC09W1(c *Ctx) {
 		}
 		inner := ""
 		for k := 0; k < st.NumFields(); k++ {
-			if typeStr(st.Field(k).Type()) == "net.Conn" {
-				inner = st.Field(k).Name()
+			ft := st.Field(k).Type()
+			if _, isIface := ft.Underlying().(*types.Interface); typeStr(ft) == "net.Conn" || (isIface && inner == "" && c09connLike(ft)) {
+				inner = st.Field(k).Name() // the wrapped connection: a net.Conn, or an interface with a connection's methods
 			}
 		}
 		ms := c.Prog.MethodSets.MethodSet(types.NewPointer(nt))
@@ -502,60 +635,29 @@ func runC09W1(c *Ctx) {
 			sel := ms.Lookup(sp.Pkg, mn)
 			key := "(*proxy/tcp." + tn + ")." + mn + "|forwards unchanged to the wrapped connection"
 			detail := "the timeout wrapper sits in every tunnel: " + mn + " must pass its argument to the wrapped connection as received and return its results unchanged"
-			if len(sel.Index()) > 1 {
-				// promoted from the embedded connection: forwarded by construction
+			if idx := sel.Index(); len(idx) > 1 {
+				// promoted from the embedded connection: forwarded by construction; a Read promoted from an embedded
+				// reader (struct{ *bufio.Reader; c net.Conn }) forwards when that reader is over the wrapped connection
 				n++
-				c.ob("C09.W1", key, token.NoPos, OK, detail+" (promoted from the embedded net.Conn)")
+				if st.Field(idx[0]).Name() == inner {
+					c.ob("C09.W1", key, token.NoPos, OK, detail+" (promoted from the embedded net.Conn)")
+				} else {
+					c.check("C09.W1", key, st.Field(idx[0]).Pos(), mn == "Read" && c09readerFieldOver(nt, idx[0], inner), detail+" ("+mn+" is promoted from the embedded field "+st.Field(idx[0]).Name()+", which must be a reader over the wrapped connection)")
+				}
 				continue
 			}
 			f := c.Prog.MethodValue(sel)
+			if obj, isF := sel.Obj().(*types.Func); isF {
+				// the declared method, not the wrapper synthesised for the pointer type of a value-receiver method
+				if d := c.Prog.FuncValue(obj); d != nil && len(d.Blocks) > 0 {
+					f = d
+				}
+			}
 			if f == nil || len(f.Blocks) == 0 {
 				continue
 			}
 			n++
-			ok := false
-			eachInstr(f, func(i ssa.Instruction) {
-				call, isC := i.(*ssa.Call)
-				if !isC {
-					return
-				}
-				recv, args, isM := c09ioCall(&call.Call, mn)
-				if !isM {
-					return
-				}
-				if _, isInner := fieldOf(recv, "tcp."+tn, inner); !isInner {
-					return
-				}
-				same := len(args) == len(f.Params)-1
-				for k := range args {
-					if same && args[k] != ssa.Value(f.Params[k+1]) {
-						same = false
-					}
-				}
-				if !same {
-					return
-				}
-				// results handed back unchanged
-				ret := true
-				eachInstr(f, func(j ssa.Instruction) {
-					r, isR := j.(*ssa.Return)
-					if !isR {
-						return
-					}
-					for k, res := range r.Results {
-						if len(r.Results) == 1 {
-							if res != ssa.Value(call) {
-								ret = false
-							}
-						} else if e, isE := res.(*ssa.Extract); !isE || e.Tuple != ssa.Value(call) || e.Index != k {
-							ret = false
-						}
-					}
-				})
-				if ret {
-					ok = true
-				}
-			})
+			ok := c09forwards(f, mn, nt, tn, inner, 0)
 			c.check("C09.W1", key, f.Pos(), ok, detail)
 		}
 		c.atLeast("C09.W1", "Read/Write/Close of the "+tn+" wrapper", n, 3)
